@@ -28,3 +28,11 @@ pub fn powf_stub(a: f64, b: f64) -> f64 {
     }
     r
 }
+
+/// `std::hash::RandomState::new` -> fixed keys (Kani only): the real one asks the OS for randomness (a
+/// foreign function). Reached only where a SimpleGarnishData (several HashMaps) is constructed; no harness
+/// depends on hash values.
+#[cfg(kani)]
+pub fn random_state_stub() -> std::hash::RandomState {
+    unsafe { std::mem::transmute::<[u64; 2], std::hash::RandomState>([0x0123456789abcdef, 0x0fedcba987654321]) }
+}
